@@ -47,13 +47,15 @@ func scriptClass(in input) string {
 	established := map[int]int{} // peer -> connection index
 	for _, m := range in.Script {
 		switch m.Op {
-		case "send", "sendhold":
+		case "send", "sendhold", "sendholdreg":
 			_, have := established[m.A]
 			if !have {
 				if closedSet {
 					tags["sendafter"] = true
 				} else if m.Op == "sendhold" {
 					heldSend[nsend] = true
+				} else if m.Op == "sendholdreg" {
+					// registered, launch pending: Stop closes it
 				} else {
 					established[m.A] = len(connPeer)
 				}
@@ -156,21 +158,44 @@ func corpus() []interface{} {
 		// peer closes first, then a new send re-connects, then stop
 		out = append(out, sc(tcp, m1("send", 0), m1("peerclose", 0), m1("send", 0), m0("stop")))
 	}
+	for _, tcp := range []bool{true, false} {
+		// simultaneous open from both sides (two connections to one peer); the OLDER one ends before Stop
+		out = append(out, sc(tcp, m1("send", 0), m1("incoming", 0), m1("peerclose", 0), m0("stop")))
+		out = append(out, sc(tcp, m1("incoming", 0), m1("send", 0), m1("incoming", 0), m1("peerclose", 0), m1("send", 0), m0("stop"), m0("stop")))
+		// three connections, the middle one ends, then the first
+		out = append(out, sc(tcp, m1("incoming", 0), m1("incoming", 0), m1("incoming", 0), m1("peerclose", 1), m1("peerclose", 0), m2("deliver", 2, 9), m0("stop")))
+		// a second connection from a retried Send: the first connection is dead but still registered
+		// (its handler is inside Dispatch), the Send fails on it and re-connects; then the handler ends
+		out = append(out, sc(tcp, m1("incoming", 0), m2("deliverhold", 0, 5), m1("peerclose", 0), m1("send", 0), m1("deliverrelease", 0), m0("stop")))
+		// two dialled connections to one peer: the first Send is held at router.connected while a second one connects
+		out = append(out, sc(tcp, m1("sendhold", 0), m1("send", 0), m1("sendrelease", 0), m1("peerclose", 1), m0("stop")))
+		// Stop between registerConnection and launchHandleRoutine
+		out = append(out, sc(tcp, m1("sendholdreg", 0), m0("stop"), m1("sendrelease", 0)))
+		out = append(out, sc(tcp, m1("incoming", 0), m1("sendholdreg", 1), m0("stophold"), m1("sendrelease", 0), m1("stoprelease", 0), m0("stop")))
+	}
 	out = append(out, serverCorpus()...)
 	return out
 }
 
 func generate(rng *rand.Rand, tier string) []interface{} {
-	nscript, nrace, nserver := 64, 12, 8
+	nscript, nrace, nserver := 56, 12, 8
+	nmulti, ncloserace := 24, 16
 	if tier != "quick" {
 		nscript, nrace, nserver = 600, 120, 60
+		nmulti, ncloserace = 300, 120
 	}
 	var out []interface{}
 	for i := 0; i < nscript; i++ {
 		out = append(out, genScript(rng, i%2 == 0))
 	}
+	for i := 0; i < nmulti; i++ {
+		out = append(out, genMulti(rng, i%2 == 0))
+	}
 	for i := 0; i < nrace; i++ {
 		out = append(out, genRace(rng, i%2 == 0))
+	}
+	for i := 0; i < ncloserace; i++ {
+		out = append(out, genCloseRace(rng, i%2 == 0, i))
 	}
 	for i := 0; i < nserver; i++ {
 		out = append(out, genServer(rng, i%3 == 0))
@@ -404,6 +429,94 @@ func genScript(rng *rand.Rand, tcp bool) input {
 		ms = append(ms, m1("silentclose", silents[0]))
 	}
 	if rng.Intn(4) == 0 {
+		ms = append(ms, m0("stop"))
+	}
+	return input{Kind: "script", TCP: tcp, Script: ms}
+}
+
+// genMulti: two or three simultaneous connections to ONE peer (simultaneous open from both
+// sides, a second dial while the first Send is held, a retried Send), some of which end
+// before Stop - so that which connection leaves the table matters - then 1-2 Stop calls.
+func genMulti(rng *rand.Rand, tcp bool) input {
+	var ms []mac
+	nconn, nsend := 0, 0
+	type ci struct{ alive, held bool }
+	var conns []ci
+	haveOut := false // an established connection exists (a plain send would reuse it)
+	msg := 40
+	add := func() {
+		switch k := rng.Intn(4); {
+		case k == 0 && !haveOut:
+			ms = append(ms, m1("send", 0))
+			nsend++
+			haveOut = true
+			conns = append(conns, ci{alive: true})
+			nconn++
+		case k == 1 && !haveOut:
+			// second dial while the first is held before registration
+			ms = append(ms, m1("sendhold", 0), m1("send", 0), m1("sendrelease", nsend))
+			nsend += 2
+			haveOut = true
+			conns = append(conns, ci{alive: true}, ci{alive: true})
+			nconn += 2
+		case k == 2 && !haveOut:
+			ms = append(ms, m1("sendholdreg", 0), m1("incoming", 0), m1("sendrelease", nsend))
+			nsend++
+			haveOut = true
+			conns = append(conns, ci{alive: true}, ci{alive: true})
+			nconn += 2
+		default:
+			ms = append(ms, m1("incoming", 0))
+			haveOut = true
+			conns = append(conns, ci{alive: true})
+			nconn++
+		}
+	}
+	for len(conns) < 2+rng.Intn(2) {
+		add()
+	}
+	if rng.Intn(3) == 0 {
+		// retried send: kill the first registered connection while its handler is busy
+		msg++
+		ms = append(ms, m2("deliverhold", 0, msg), m1("peerclose", 0), m1("send", 0), m1("deliverrelease", 0))
+		nsend++
+		conns[0].alive = false
+		conns = append(conns, ci{alive: true}) // the Send fails on the dead connection (when it is the first registered one) and re-connects
+		nconn++
+	}
+	// some connections end before the stop; the oldest one most of the time
+	ends := 1 + rng.Intn(2)
+	for i := 0; i < ends; i++ {
+		var cand []int
+		for j, c := range conns {
+			if c.alive {
+				cand = append(cand, j)
+			}
+		}
+		if len(cand) <= 1 {
+			break
+		}
+		j := cand[0]
+		if rng.Intn(3) == 0 {
+			j = cand[rng.Intn(len(cand)-1)]
+		}
+		ms = append(ms, m1("peerclose", j))
+		conns[j].alive = false
+		if rng.Intn(2) == 0 {
+			for k, c := range conns {
+				if c.alive {
+					msg++
+					ms = append(ms, m2("deliver", k, msg))
+					break
+				}
+			}
+		}
+	}
+	if rng.Intn(2) == 0 {
+		ms = append(ms, m1("send", 0))
+	}
+	ms = append(ms, m0("stop"))
+	if rng.Intn(2) == 0 {
 		ms = append(ms, m0("stop"))
 	}
 	return input{Kind: "script", TCP: tcp, Script: ms}
